@@ -147,6 +147,42 @@ func opRunBig(fields []string) string {
 	return "RES " + withBudgetN(func() string { return canonMatches(v.Run(text)) }, 50)
 }
 
+// opTrace: step count and fingerprint of the real VM loop's step sequence (pc, offset, backtrack depth, loop
+// depth, call depth per executed instruction) — the same FNV-style fold the Lean model computes (Model/Trace.lean)
+func opTrace(fields []string) (out string) {
+	src, text := unhx(fields[0]), unhx(fields[1])
+	v, class := safeCompile(src)
+	if v == nil {
+		return "COMPILE " + class
+	}
+	n := 0
+	h := uint64(1469598103934665603)
+	mix := func(x int) { h = (h ^ uint64(x)) * 1099511628211 }
+	engine.VerifStepHook = func(pc, pos, nbt, nloops, ncalls int) {
+		n++
+		if n > stepBudget {
+			panic(budgetExceeded{})
+		}
+		mix(pc)
+		mix(pos)
+		mix(nbt)
+		mix(nloops)
+		mix(ncalls)
+	}
+	defer func() {
+		engine.VerifStepHook = nil
+		if r := recover(); r != nil {
+			if _, ok := r.(budgetExceeded); ok {
+				out = "AST " + v.VerifAst() + "\tTR DIVERGE"
+			} else {
+				out = "AST " + v.VerifAst() + "\tTR PANIC " + hx(fmt.Sprint(r))
+			}
+		}
+	}()
+	v.Run(text)
+	return fmt.Sprintf("AST %s\tTR n=%d h=%d", v.VerifAst(), n, h)
+}
+
 func workerMain() {
 	in := bufio.NewReaderSize(os.Stdin, 1<<20)
 	out := bufio.NewWriter(os.Stdout)
@@ -198,7 +234,9 @@ func startWorker() (*wproc, error) {
 	if err != nil {
 		return nil, err
 	}
-	cmd := exec.Command(self, "worker")
+	// a hard cap on the address space: a source like `exactly 99999999999 'a'` makes Compile allocate without
+	// bound (recorded finding); the worker then dies with "out of memory" (= CRASH) instead of eating the machine
+	cmd := exec.Command("/bin/sh", "-c", "ulimit -v 4000000; exec \"$0\" worker", self)
 	cmd.Env = append(os.Environ(), "GOMEMLIMIT=1500MiB", "GOMAXPROCS=2")
 	cmd.Stderr = nil
 	cmd.SysProcAttr = &syscall.SysProcAttr{Setpgid: true}
